@@ -276,6 +276,18 @@ def build_scenarios(ctx, ports):
     sc.append(("net3", net_spec(ports, 3, cycle(rng, 3, True) + [{"op": "start", "wait": False}, {"op": "stop"}]
                                 + cycle(rng, 3, rng.choice([True, False]), program=False)
                                 + [{"op": "reopen"}] + cycle(rng, 3, True, epr=False))))
+    # a node process that is slow to go down: its qnodeos port is taken by something else, so the process sits in its listen-retry loop (it
+    # acts on SIGTERM only when that loop ends); stop() must still not return before every process it started is gone
+    sc.append(("slowstop2", net_spec(ports, 2, [{"op": "occupy", "node": NAMES[1], "kind": "qnodeos"}, {"op": "start", "wait": False},
+                                                 {"op": "sleep", "s": 1.0}, {"op": "stop"}, {"op": "release"}] + cycle(rng, 2, True, epr=False))))
+    # the stop loop itself over stand-in processes that need several signals / several (virtual) seconds to go down: the real Network.stop()
+    # must not return while any of them is alive
+    for k in range(3 if ctx.tier == "thorough" else 2):
+        n = rng.choice([2, 3])
+        beh = [[rng.choice([1, 1, 2, 4]), rng.choice([0.0, 0.3, 2.5, 7.0])] for _ in range(2 * n)]
+        beh[rng.randrange(2 * n)] = [rng.choice([1, 3]), rng.choice([2.5, 6.0])]
+        sc.append(("fakestop%d_%d" % (n, k), {"kind": "fakestop", "name": "default", "nodes": NAMES[:n], "ports": ports.pool(3 * n + 6),
+                                               "behaviour": beh, "steps": [], "limits": LIMITS}))
     # staggered start of 3 nodes, all six processes in random order
     sc.append(("stag3", stagger_spec(ports, rng, 3, True)))
     # a node that is up long before its peers: many refused attempts (fast retry interval through the user settings file) before the first success
@@ -319,6 +331,7 @@ def judge_network(res):
     if res["error"] and not res["hung"]:
         bad.append(("driver-error", "driver failed: " + res["error"][-300:]))
     last = None
+    held_by_harness = set()
     for e in res["events"]:
         k = e["ev"]
         if k == "configured" and e["processes"] != 2 * n:
@@ -345,11 +358,15 @@ def judge_network(res):
                 bad.append(("stop-error", "stop() raised " + e["error"]))
             if any(e["alive"]) or not e["all_dead"]:
                 bad.append(("stop-leaves-process", "after stop(): is_alive=%r, OS says alive=%r" % (e["alive"], e["os_alive"])))
-            busy = [x for x, v in e["ports"].items() if v["connectable"] or not v["listen_again"]]
+            busy = [x for x, v in e["ports"].items() if (v["connectable"] or not v["listen_again"]) and x not in held_by_harness]
             if busy:
                 bad.append(("port-not-freed", "after stop() these ports cannot be listened on again: %r" % busy))
             if e["running_property"]:
                 bad.append(("running-after-stop", "Network.running is still True after stop() although every process is gone"))
+        elif k == "occupy":
+            held_by_harness.add("%s/%s" % (e["node"], e["kind"]))
+        elif k == "release":
+            held_by_harness.clear()
         elif k == "reopen" and (e["processes"] != 2 * n or not e["same_config"]):
             bad.append(("reopen", "Network(new=False) on the written configuration: %r" % e))
         elif k == "cleanup" and e["leftover"] and last == "stop":
@@ -533,6 +550,23 @@ def run(ctx):
             if e["ev"] in ("stop", "terminated"):
                 strict_busy += sum(1 for v in e["ports"].values() if not v["strict_bind"])
         ctx.count("nodes_%d" % len(r["spec"]["nodes"]))
+        if r["spec"]["kind"] == "fakestop":
+            bad = []
+            if r["hung"] or r["error"]:
+                bad.append(("driver-error", "fakestop scenario: hung=%r error=%s" % (r["hung"], (r["error"] or "")[-300:])))
+            for e in r["events"]:
+                if e["ev"] == "fakestop":
+                    ctx.count("fakestop_runs")
+                    ctx.count("fakestop_virtual_seconds_x100", int(100 * e["fake_seconds"]))
+                    if e["alive_after_stop"]:
+                        bad.append(("stop-leaves-process", "Network.stop() returned while %r were still alive (stand-in processes needing %r (signals, seconds) "
+                                    "to go down; signals sent %r)" % (e["alive_after_stop"], e["behaviour"], e["signals"])))
+            if not any(e["ev"] == "fakestop" for e in r["events"]) and not bad:
+                bad.append(("driver-error", "fakestop scenario produced no observation"))
+            cases.append("CLife %d []" % len(r["spec"]["nodes"]))          # keeps cases / descr / problems aligned (no start/stop events to compare)
+            descr.append(r)
+            problems.append(bad)
+            continue
         if r["spec"]["kind"] == "network":
             txt, k = life_case(r)
             bad = judge_network(r)
